@@ -40,15 +40,15 @@ pub fn to_vec(m: &Pairs) -> Vec<(Vec<u8>, Vec<u8>)> {
 }
 
 /// signature length the family produces for this content
-pub fn sig_len(fam: FamId, seq: u64, pairs: &Pairs) -> usize {
+pub fn sig_len(fam: FamId, units: usize, seq: u64, pairs: &Pairs) -> usize {
     match fam {
-        FamId::Var => 64 + keys::var_pad(&record::content_from_fields(seq, &to_vec(pairs))).len(),
+        FamId::Var | FamId::Wide => 64 + keys::var_pad(&record::content_from_fields(seq, &to_vec(pairs)), units).len(),
         _ => 64,
     }
 }
 
-pub fn record_size(fam: FamId, seq: u64, pairs: &Pairs) -> usize {
-    let sl = sig_len(fam, seq, pairs);
+pub fn record_size(fam: FamId, units: usize, seq: u64, pairs: &Pairs) -> usize {
+    let sl = sig_len(fam, units, seq, pairs);
     record::record_from_fields(&vec![0u8; sl], seq, &to_vec(pairs)).len()
 }
 
@@ -196,6 +196,8 @@ pub struct Ctx<'a> {
     pub signer_pk: &'a [u8],
     /// the next signing call is scheduled to fail
     pub fault_pending: bool,
+    /// custom scheme: padding units of the signer's key
+    pub units: usize,
 }
 
 thread_local! {
@@ -243,11 +245,11 @@ fn finish(cx: &Ctx, mut pairs: Pairs, new_seq: Option<u64>, pre_seq: u64, mut c:
             }
         }
     }
-    let size = record_size(cx.fam, seq, &pairs);
+    let size = record_size(cx.fam, cx.units, seq, &pairs);
     LAST_SIZE.with(|c| c.set(size));
     if size > 300 {
         c.err(EK::Size);
-    } else if cx.fam == FamId::Var && size + 6 > 300 {
+    } else if (cx.fam == FamId::Var && size + 6 > 300) || cx.fam == FamId::Wide {
         // variable-length signatures: exact refusal is only claimed for 64-byte signatures (C09);
         // a size check made before re-signing may see a longer previous signature
         c.open_with(EK::Size);
@@ -458,7 +460,7 @@ pub fn expect_build(cx: &Ctx, calls: &[BCall]) -> Expect {
     // size rule of the builder: > 300 refused, 293..=300 may be refused, <= 292 not refused for size
     let mut probe = p.clone();
     probe.insert(kn.clone(), rlp::encode_str(cx.signer_pk));
-    let size = record_size(cx.fam, seq, &probe);
+    let size = record_size(cx.fam, cx.units, seq, &probe);
     if (293..=300).contains(&size) {
         c.open_with(EK::Size);
     }
